@@ -49,6 +49,9 @@ def evaluate(prop, cases, stats, jobs=None):
     stats['t_lean'] = stats.get('t_lean', 0) + time.time() - t0
     viol, dis = [], []
     for c, o, r in zip(cases, obs_list, replies):
+        if o.get('err') == 'NotRun':
+            stats['not_run'] = stats.get('not_run', 0) + 1
+            continue
         stats['evaluations'] += 1
         cls = prop.classify(c, o, r)
         stats['dist'][cls] = stats['dist'].get(cls, 0) + 1
@@ -67,26 +70,39 @@ def evaluate(prop, cases, stats, jobs=None):
     return viol, dis
 
 
-def shrink(prop, case, still_fails):
-    """greedy shrinking with the prop's candidate generator"""
+def shrink(prop, case, known):
+    """greedy shrinking with the prop's candidate generator; candidates of a round are evaluated as one crash-isolated batch"""
     if not hasattr(prop, 'shrink'):
         return case
     cur = case
-    budget = 150
-    progress = True
-    while progress and budget > 0:
-        progress = False
+    for _round in range(25):
+        cands = []
         for cand in prop.shrink(cur):
-            budget -= 1
-            if budget <= 0:
+            cands.append(cand)
+            if len(cands) >= 40:
                 break
-            try:
-                if still_fails(cand):
-                    cur = cand
-                    progress = True
-                    break
-            except core.HarnessError:
+        if not cands:
+            break
+        try:
+            if getattr(prop, 'INPROCESS', False):
+                obs = [prop.real(c) for c in cands]
+            else:
+                obs = core.run_real(prop.PID, cands, nworkers=1, env=getattr(prop, 'ENV', None))
+            reps = core.lean_batch([prop.request(c, o) for c, o in zip(cands, obs)], shards=1)
+        except core.HarnessError:
+            break
+        nxt = None
+        for c, o, r in zip(cands, obs, reps):
+            if o.get('err') in ('HarnessException', 'NotRun'):
                 continue
+            if any(prop.known_match(k, c, o, r) for k in known):
+                continue
+            if not prop.holds(c, o, r):
+                nxt = c
+                break
+        if nxt is None:
+            break
+        cur = nxt
     return cur
 
 
@@ -178,22 +194,10 @@ def run_check(pid, tier):
             out_lines.append('KNOWN-FINDING: property=%s %s' % (pid, k['what_fails']))
         if new:
             c, o, r = new[0]
-            drv = core.LeanDriver()
-
-            def still(cand):
-                oo = prop.real(cand)
-                rr = drv.ask(prop.request(cand, oo))
-                if 'driver_error' in rr:
-                    return False
-                if any(prop.known_match(k, cand, oo, rr) for k in known):
-                    return False
-                return not prop.holds(cand, oo, rr)
-            try:
-                cmin = shrink(prop, c, still)
-                omin = prop.real(cmin)
-                rmin = drv.ask(prop.request(cmin, omin))
-            finally:
-                drv.close()
+            cmin = shrink(prop, c, known)
+            omin = (prop.real(cmin) if getattr(prop, 'INPROCESS', False)
+                    else core.run_real(prop.PID, [cmin], nworkers=1, env=getattr(prop, 'ENV', None))[0])
+            rmin = core.lean_batch([prop.request(cmin, omin)], shards=1)[0]
             path = core.replay_path(pid, '%s-%d' % (tier, seed))
             core.write_json(path, {'property': pid, 'kind': 'property-fails-on-real-code', 'seed': seed, 'tier': tier,
                                    'case': cmin, 'observed': omin, 'lean_reply': rmin, 'original_case': c,
@@ -243,6 +247,7 @@ def run_check(pid, tier):
         'anchors_drifted': drift,
         'budget_boost': boost,
         'disagreements': len(dis_all),
+        'not_run_after_repeated_crashes': stats.get('not_run', 0),
         'known_findings_hit': sorted(known_hit),
         'timing_s': {'lean_build': round(t_build, 1), 'real_code': round(stats.get('t_real', 0), 1),
                      'lean_model': round(stats.get('t_lean', 0), 1)},
